@@ -1,19 +1,265 @@
-import MuduoVerif.Model.Client
+import MuduoVerif.Proofs.Client
 /-!
 # C12 — a client connects once per cycle, backs off, obeys stop/disconnect
-(first instalment: the schedule arithmetic; the invariants follow in Proofs/Client.lean)
+
+Property theorems only (lemmas: `Proofs/Client*.lean`).  The model is `Model/Client.lean`
+(`Connector` + `TcpClient` + the parts of `TcpConnection`, `Channel`, `TimerQueue` and the functor
+queue a client's user can observe); constants, the delay update, the errno table, every state test,
+the destructor's branches and how `shutdown()`'s functor holds the connection are generated from the
+sources (`Generated/Client.lean`, `Generated/Conn.lean`).
+
+**Quantification.**  `ins : List In` is any history of `connect / disconnect / stop / enableRetry /
+destroy / holdRef / dropRef` (from the loop thread or a foreign thread), clock advances, loop
+iterations with *any* list of reported channels and event masks, and any results of `::connect`,
+`SO_ERROR`, self-connect test and `readv`; both build flavours (`asserts`).  The scope guard
+`Guarded` (a decidable predicate on the history, `Proofs/ClientOps.lean`) says:
+* `connect()` only while no attempt, connection, pending retry timer or queued `connect()` of that
+  client is outstanding (the property's own quantifier), and only on a live client;
+* `disconnect() / stop() / enableRetry()` only on a live client;
+* `~TcpClient` on the loop thread (`Who.loop`; the foreign-thread case is F11, see the end);
+* the user drops a connection reference only if the connection is down or somebody else still
+  holds it (`TcpConnection`'s own contract: its destructor asserts `kDisconnected`).
+
+**How the statements are phrased.**  `scan` (`Proofs/ClientSpec.lean`) is an automaton over event
+traces that does not mention the model; the invariant proved for all guarded histories says that
+the model's trace is accepted by it and that its summary matches the model's state.  The theorems
+below unfold what acceptance means.  The ghost marks `Ev.ghost` in a trace are the user's calls
+(`stop_marks`, `connect_marks`, `destroy_marks`) and the start of a connect cycle
+(`Connector::startCycleInLoop`, `Connector::restart`).
 -/
 namespace MuduoVerif.C12
 open MuduoVerif.Client MuduoVerif.Gen.Client
 
 /-- the property's schedule: delay before the i-th consecutive retry of a cycle, in ms -/
-def specDelay (i : Nat) : Nat := min (500 * 2 ^ i) 30000
+abbrev specDelay (i : Nat) : Nat := Client.specDelay i
 
 /-- the T1-translated update of `Connector::retry` walks the schedule -/
-theorem next_delay_spec (i : Nat) : nextDelay (specDelay i) = specDelay (i + 1) := by
-  unfold nextDelay specDelay kMaxRetryDelayMs
-  rw [Nat.pow_succ]
-  generalize 2 ^ i = x
-  omega
+theorem next_delay_spec (i : Nat) : nextDelay (specDelay i) = specDelay (i + 1) := nextDelay_spec i
+
+theorem spec_delay_formula (i : Nat) : specDelay i = min (500 * 2 ^ i) 30000 := rfl
+
+section
+variable (asserts : Bool) (ins : List In) (hg : Guarded (init asserts) ins)
+include hg
+
+/-- **no_abort**: in no guarded history, in either build flavour, does an assertion fail or does a
+step touch a destroyed object; the process never dies -/
+theorem no_abort :
+    (reach asserts ins).dead = false ∧
+    ∀ w, Ev.abort w ∉ (reach asserts ins).trace ∧ Ev.uaf w ∉ (reach asserts ins).trace :=
+  bnd_no_bad (reach_bnd asserts ins hg)
+
+/-- **socket_once**: every socket is created once; it is handed over to a connection xor closed by
+the connector, exactly once — unless it is the socket of the attempt in progress, of which there is
+at most one and which is watched by the connector's channel; a handed-over descriptor is closed by
+`~TcpConnection` at most once, after DOWN, which comes after UP, which comes after the hand-over -/
+theorem socket_once (k : Nat) :
+    (reach asserts ins).trace.count (.sockCreated k) = (if k < (reach asserts ins).nsock then 1 else 0) ∧
+    (k < (reach asserts ins).nsock →
+      (reach asserts ins).trace.count (.handedOver k) + (reach asserts ins).trace.count (.sockClosed k) =
+        (if (reach asserts ins).sockSt[k]? = some .opened then 0 else 1)) ∧
+    ((reach asserts ins).sockSt[k]? = some .opened →
+      (reach asserts ins).cstate = .kConnecting ∧ (reach asserts ins).chan = some k ∧ (reach asserts ins).chanOn = true) ∧
+    (reach asserts ins).trace.count (.connClosed k) ≤ (reach asserts ins).trace.count (.down k) ∧
+    (reach asserts ins).trace.count (.down k) ≤ (reach asserts ins).trace.count (.up k) ∧
+    (reach asserts ins).trace.count (.up k) ≤ (reach asserts ins).trace.count (.handedOver k) ∧
+    (reach asserts ins).trace.count (.handedOver k) ≤ 1 :=
+  bnd_socket (reach_bnd asserts ins hg) k
+
+/-- no socket leaks in a quiescent state: when no attempt is in progress every socket ever created
+has been handed over or closed (stop while connecting, error + writable in one dispatch,
+self-connect, refused connects, destruction in any state: all are histories) -/
+theorem no_leak_quiescent (hq : (reach asserts ins).cstate ≠ .kConnecting) (k : Nat) (hk : k < (reach asserts ins).nsock) :
+    (reach asserts ins).trace.count (.handedOver k) + (reach asserts ins).trace.count (.sockClosed k) = 1 := by
+  obtain ⟨_, h2, h3, _⟩ := socket_once asserts ins hg k
+  rw [h2 hk, if_neg]
+  intro ho; exact hq (h3 ho).1
+
+/-- and after a loop iteration every `TcpConnection` that still exists is referred to by the user,
+by the live client or by a queued functor: none is forgotten with its descriptor open -/
+theorem no_conn_leak (a : List Src) (y : ConnRec) (hy : y ∈ (iter (reach asserts ins) a).conns)
+    (hd : y.destroyed = false) : connHeld (iter (reach asserts ins) a) y = true :=
+  iter_no_conn_leak _ (reach_bnd asserts ins hg) a y hy hd
+
+/-- **backoff**: the i-th retry scheduled since the cycle began (`i` counted from the last cycle
+mark before it) waits `min(500·2^i, 30000)` ms -/
+theorem backoff {pre post : List Ev} {i ms t : Nat}
+    (h : (reach asserts ins).trace = pre ++ .retryScheduled i ms t :: post) :
+    i = (cyc pre).2 ∧ ms = specDelay i :=
+  bnd_backoff (reach_bnd asserts ins hg) h
+
+/-- **one_up_per_cycle**: an UP is the first of its cycle, is reported on a socket that was handed
+over (and not closed), and is reported once per socket -/
+theorem one_up_per_cycle {pre post : List Ev} {k : Nat}
+    (h : (reach asserts ins).trace = pre ++ .up k :: post) :
+    (cyc pre).1 = 0 ∧ Ev.handedOver k ∈ pre ∧ Ev.up k ∉ pre ∧ Ev.sockClosed k ∉ pre :=
+  bnd_one_up (reach_bnd asserts ins hg) h
+
+/-- **stop_silences**: from the moment `stop()` returns (not only after its functor ran) until the
+next `connect()`, nothing is started: no attempt, no UP, no retry timer -/
+theorem stop_silences {pre post : List Ev} {e : Ev}
+    (h : (reach asserts ins).trace = pre ++ e :: post) (hs : stoppedAfter pre = true) : e.starts = false :=
+  bnd_silence (reach_bnd asserts ins hg) h (.inl hs)
+
+/-- once `~TcpClient` has run nothing is started on behalf of the client either: no attempt, no
+retry timer, no UP callback into the destroyed client -/
+theorem destroyed_silent {pre post : List Ev} {e : Ev}
+    (h : (reach asserts ins).trace = pre ++ e :: post) (hs : goneAfter pre = true) : e.starts = false :=
+  bnd_silence (reach_bnd asserts ins hg) h (.inr hs)
+
+/-- **disconnect_graceful**: `disconnect()` on the established connection clears the client's
+`connect_`, queues the half-close, and the next loop iteration — whatever the poller reports in it —
+performs `shutdown(SHUT_WR)` on that connection -/
+theorem disconnect_graceful (w : Who) (k : Nat) (x : ConnRec)
+    (hal : (reach asserts ins).clientAlive = true) (hcn : (reach asserts ins).connection = some k)
+    (hx : findIn (reach asserts ins).conns k = some x) (hst : x.st = .connected) :
+    (step (reach asserts ins) (.disconnect w)).tConnect = false ∧
+    (step (reach asserts ins) (.disconnect w)).pending = (reach asserts ins).pending ++ [.shutdownInLoop k] ∧
+    ∀ a, ∃ d, (step (step (reach asserts ins) (.disconnect w)) (.iter a)).trace = (reach asserts ins).trace ++ d ∧
+      Ev.shutdownWr k ∈ d := by
+  obtain ⟨h1, _, h3, h4⟩ := disconnect_leads _ (reach_bnd asserts ins hg) hal w k x hcn hx hst
+  exact ⟨h1, h3, h4⟩
+
+/-- **destroy_safe_inloop** (`Who.loop`), first part: after `~TcpClient` the client is gone and one
+loop iteration later no socket of an attempt is open any more (it was closed or, had the attempt
+completed before, handed over) — in whatever state the client was destroyed -/
+theorem destroy_safe_inloop_sockets (hal : (reach asserts ins).clientAlive = true) :
+    (step (reach asserts ins) (.destroy .loop)).clientAlive = false ∧
+    ∀ (a : List Src) (k : Nat),
+      (step (step (reach asserts ins) (.destroy .loop)) (.iter a)).sockSt[k]? ≠ some SockSt.opened :=
+  destroy_quiet _ (reach_bnd asserts ins hg) hal
+
+/-- second part: an established connection that nobody but the client holds goes DOWN and is
+destroyed (descriptor closed) within two loop iterations.  This needs `shutdown()`'s functor to hold
+the connection weakly (`Gen.Conn.shutdownHold = .weak`, the F26 fix; `gen_shutdown_weak`): with
+`.strong` a pending `disconnect()` makes `connection_.unique()` false, nobody closes the connection,
+and `reap` finds it destroyed while still connected (corpus/C12/F26-…) -/
+theorem destroy_safe_inloop_connection (hal : (reach asserts ins).clientAlive = true) (k : Nat) (x : ConnRec)
+    (hcn : (reach asserts ins).connection = some k) (hx : findIn (reach asserts ins).conns k = some x)
+    (hur : x.userRef = false) (a b : List Src) :
+    Ev.down k ∈ (step (step (step (reach asserts ins) (.destroy .loop)) (.iter a)) (.iter b)).trace ∧
+    Ev.connClosed k ∈ (step (step (step (reach asserts ins) (.destroy .loop)) (.iter a)) (.iter b)).trace :=
+  destroy_leads _ (reach_bnd asserts ins hg) hal k x hcn hx hur a b
+
+end
+
+/-- the marks in the trace are the user's calls -/
+theorem marks (c : C) (hb : Bnd c) (hal : c.clientAlive = true) (w : Who) :
+    (step c (.stop w)).trace = c.trace ++ [.ghost .stop] ∧
+    c.trace ++ [.ghost .connect] <+: (step c (.connect w)).trace ∧
+    c.trace ++ [.ghost .destroy] <+: (step c (.destroy .loop)).trace :=
+  ⟨stop_marks c w hb.notDead hal, connect_marks c w hb.notDead hal, destroy_marks c hb hal⟩
+
+/-- every cycle starts at 500 ms (the F13 fix, `Gen.Client.cycleResetsDelay`): the first retry
+after a cycle mark waits `specDelay 0 = 500` ms -/
+theorem backoff_cycle_starts_at_500 (asserts : Bool) (ins : List In) (hg : Guarded (init asserts) ins)
+    {pre mid post : List Ev} {i ms t : Nat}
+    (h : (reach asserts ins).trace = pre ++ .ghost .cycle :: mid ++ .retryScheduled i ms t :: post)
+    (hm : ∀ e ∈ mid, ∀ i' ms' t', e ≠ .retryScheduled i' ms' t') : i = 0 ∧ ms = 500 := by
+  have h' : (reach asserts ins).trace = (pre ++ .ghost .cycle :: mid) ++ .retryScheduled i ms t :: post := by
+    rw [h]
+  obtain ⟨h1, h2⟩ := backoff asserts ins hg h'
+  have hz : ∀ (l : List Ev) (a : Nat × Nat), a.2 = 0 → (∀ e ∈ l, ∀ i' ms' t', e ≠ .retryScheduled i' ms' t') →
+      (l.foldl cycStep a).2 = 0 := by
+    intro l
+    induction l with
+    | nil => intro a ha _; exact ha
+    | cons e l ih =>
+      intro a ha hl
+      rw [List.foldl_cons]
+      apply ih
+      · cases e with
+        | retryScheduled i' ms' t' => exact absurd rfl (hl _ List.mem_cons_self i' ms' t')
+        | ghost g => cases g <;> first | rfl | exact ha
+        | _ => exact ha
+      · intro e' he'; exact hl e' (by simp [he'])
+  have : (cyc (pre ++ .ghost .cycle :: mid)).2 = 0 := by
+    unfold cyc
+    rw [List.foldl_append, List.foldl_cons]
+    exact hz mid _ rfl hm
+  rw [this] at h1
+  subst h1
+  exact ⟨rfl, h2⟩
+
+/-- what `Connector::retry` arms: the timer fires `specDelay nretry` ms after the failure, and the
+retry timer does not fire before it is due -/
+theorem backoff_timer (c : C) (r : List Task) (ph : Bool) (hi : Mid c r ph) (k : Nat) (hcc : c.cConnect = true) :
+    (retry c k).timers = c.timers ++ [(c.now + specDelay c.nretry * 1000, .retry)] ∧
+    (retry c k).trace = c.trace ++ [.sockClosed k, .retryScheduled c.nretry (specDelay c.nretry) c.now] ∧
+    ((∀ t ∈ c.timers, c.now < t.1) → (fireTimers c).trace = c.trace ∧ (fireTimers c).nsock = c.nsock) := by
+  obtain ⟨h1, h2, _⟩ := retry_arms c k hcc hi.g1
+  exact ⟨h1, h2, fireTimers_not_due c r ph hi⟩
+
+/-- **retry_policy**: in every state `c` the loop can be in during a guarded history (`Mid`), when
+the established connection `k` of a live client goes down (`TcpConnection::handleClose` with
+`TcpClient::removeConnection` behind it), a new cycle with a new attempt starts in the same
+dispatch iff `retry_ ∧ connect_`; otherwise DOWN is all that happens -/
+theorem retry_policy (c : C) (r : List Task) (ph : Bool) (hi : Mid c r ph) (k : Nat) (x : ConnRec)
+    (hx : findIn c.conns k = some x) (hst : x.st ≠ .disconnected) (hcb : x.closeCb = .client) :
+    (c.retry = true ∧ c.tConnect = true →
+      ∃ tail, (handleClose c k).trace =
+        c.trace ++ [.down k, .ghost .cycle, .sockCreated c.nsock, .attempt c.nsock c.now] ++ tail) ∧
+    (¬ (c.retry = true ∧ c.tConnect = true) →
+      (handleClose c k).trace = c.trace ++ [.down k] ∧ (handleClose c k).nsock = c.nsock) :=
+  handleClose_client_trace c r ph hi k x hx hst hcb
+
+/-! ### the hypotheses are satisfiable -/
+
+/-- a guarded history with a refused attempt, a retry, an established connection, `disconnect()`,
+the peer's close and the destruction of the client -/
+def sampleHistory : List In :=
+  [.enableRetry, .envConnect 111, .connect .loop, .advance 500000, .iter [.timer], .iter [.connector 4],
+   .holdRef, .disconnect .foreign, .iter [], .envRead (some 0), .iter [.conn 1 1], .dropRef, .stop .loop, .iter [],
+   .connect .foreign, .iter [], .iter [.connector 4], .destroy .loop, .iter [], .iter []]
+
+example : Guarded (init true) sampleHistory := by decide
+example : Guarded (init false) sampleHistory := by decide
+example : (reach true sampleHistory).trace.count (.up 1) = 1 ∧ (reach true sampleHistory).trace.count (.up 2) = 1 ∧
+    Ev.retryScheduled 0 500 0 ∈ (reach true sampleHistory).trace ∧ Ev.shutdownWr 1 ∈ (reach true sampleHistory).trace ∧
+    Ev.connClosed 2 ∈ (reach true sampleHistory).trace := by decide
+
+/-- the hypotheses of `disconnect_graceful` and `destroy_safe_inloop_connection` hold after `connect(); iter` -/
+example : Guarded (init true) [.connect .loop, .iter [.connector 4]] ∧
+    (reach true [.connect .loop, .iter [.connector 4]]).clientAlive = true ∧
+    (reach true [.connect .loop, .iter [.connector 4]]).connection = some 0 ∧
+    findIn (reach true [.connect .loop, .iter [.connector 4]]).conns 0 = some { sock := 0 } := by decide
+
+/-- the hypotheses of `retry_policy`: the same state is a `Mid` state (it is a boundary state) -/
+example : Mid (reach true [.connect .loop, .iter [.connector 4]]) [] true :=
+  reach_bnd true _ (by decide)
+
+/-! ### destruction from another thread (F11): outside the theorems above -/
+
+/-- the scope guard without the restriction of `~TcpClient` to the loop thread -/
+def okInAny (c : C) : In → Prop
+  | .destroy _ => c.clientAlive = true
+  | i => okIn c i
+instance (c : C) (i : In) : Decidable (okInAny c i) := by
+  cases i <;> unfold okInAny <;> infer_instance
+
+def GuardedAny (c : C) : List In → Prop
+  | [] => True
+  | i :: is => okInAny c i ∧ GuardedAny (step c i) is
+instance : (c : C) → (ins : List In) → Decidable (GuardedAny c ins)
+  | _, [] => by unfold GuardedAny; infer_instance
+  | c, i :: is => by
+    unfold GuardedAny
+    have := instDecidableGuardedAny (step c i) is
+    infer_instance
+
+/-- `destroy_safe` for any thread: what one would like to have -/
+def destroy_safe_full : Prop :=
+  ∀ (asserts : Bool) (ins : List In), GuardedAny (init asserts) ins → ∀ w, Ev.uaf w ∉ (reach asserts ins).trace
+
+/-- the history on which the model shows the use after free: the connection is up; `~TcpClient`
+runs on a foreign thread, so `setCloseCallback(detail::removeConnection)` is only *queued*
+(`TcpClient.cc`: "FIXME: not 100% safe, if we are in different thread"); the loop reports the
+peer's hang-up first and `TcpConnection::handleClose` calls `TcpClient::removeConnection` on the
+destroyed client -/
+def f11Witness : List In := [.connect .loop, .iter [.connector 4], .destroy .foreign, .iter [.conn 0 16]]
+
+theorem destroy_safe_full_false : ¬ destroy_safe_full := by
+  intro h
+  exact h true f11Witness (by decide) "TcpClient::removeConnection" (by decide)
 
 end MuduoVerif.C12
